@@ -373,6 +373,7 @@ pub struct TaskLocal {
 pub fn exec(plan: &Plan) -> ExecOut {
     let data: Vec<Vec<u8>> = plan.data.iter().map(|d| d.materialize(plan.cfg.secret_xor)).collect();
     let n = plan.tasks.len();
+    crate::guard::reset_arena();
     // every run starts from the same C dispatcher state
     crate::cnode::set_mask(crate::cnode::detected_mask());
     let sched = Sched::new(&plan.schedule, n);
@@ -451,7 +452,11 @@ fn run_task(shared: Arc<Shared>, id: usize) {
         if sched.stopped() {
             break;
         }
-        let res = catch_unwind(AssertUnwindSafe(|| crate::ops::do_op(&shared, &mut local, op)));
+        crate::guard::CUR_TASK_OP.store(((id as u64) << 32) | i as u64, Ordering::Relaxed);
+        let res = {
+            let _sut = crate::guard::SutGuard::enter();
+            catch_unwind(AssertUnwindSafe(|| crate::ops::do_op(&shared, &mut local, op)))
+        };
         // a panic may have left yields suppressed
         sched::set_ctx(Some(TaskCtx { sched: sched.clone(), id, quiet: 0 }));
         set_joinctl(None);
